@@ -47,6 +47,18 @@ BSRModifier = namedtuple('BSRModifier',
 log = logging.getLogger(__file__)
 
 
+def is_code_or_flag_table_unit(unit):
+    """
+    Whether the unit is of a code or flag table. The spelling differs between
+    table versions, e.g. 'CODE TABLE', 'Code table', 'Common CODE TABLE C-1',
+    'CODE TABLE defined by originating/generating centre'.
+    """
+    if unit in (UNITS_FLAG_TABLE, UNITS_CODE_TABLE):
+        return True
+    unit = unit.upper()
+    return UNITS_CODE_TABLE in unit or UNITS_FLAG_TABLE in unit
+
+
 class AuditedList(list):
     """
     This class provides wrappers for some list methods, e.g. append, so that
@@ -455,7 +467,7 @@ class Coder(object):
             nbytes = state.new_nbytes if state.new_nbytes else descriptor.nbits // 8
             self.process_string(state, bit_operator, descriptor, nbytes)
 
-        elif descriptor.unit in (UNITS_FLAG_TABLE, UNITS_CODE_TABLE):
+        elif is_code_or_flag_table_unit(descriptor.unit):
             self.process_codeflag(state, bit_operator, descriptor, descriptor.nbits)
 
         else:
